@@ -202,6 +202,10 @@ pub struct World {
 
 thread_local! { static EPMD_CREATION_OVERRIDE: std::cell::Cell<Option<u32>> = const { std::cell::Cell::new(None) }; }
 /// The creation the fake EPMD of this thread's executions assigns (None = EPMD_CREATION). One execution runs per thread.
+thread_local! { static PRE_START_USE: std::cell::Cell<bool> = const { std::cell::Cell::new(false) }; }
+/// When set, `node_world_opt` makes a reference and spawns a process on the node before starting it.
+pub fn set_pre_start_use(v: bool) { PRE_START_USE.with(|c| c.set(v)); }
+pub fn pre_start_use() -> bool { PRE_START_USE.with(|c| c.get()) }
 pub fn set_epmd_creation(v: Option<u32>) { EPMD_CREATION_OVERRIDE.with(|c| c.set(v)); }
 pub fn epmd_creation() -> u32 { EPMD_CREATION_OVERRIDE.with(|c| c.get()).unwrap_or(EPMD_CREATION) }
 
